@@ -1097,6 +1097,26 @@ def r_mainvars(ctx):
     f = vals.get("self.optimal_F")
     okf = f is not None and (isinstance(f, ast.Name) and isinstance(vals.get(f.id), ast.Call) and call_name(vals[f.id]) == "getxx" or isinstance(f, ast.Call) and call_name(f) == "getxx")
     ctx.ob("R-SOLVEVALS", "MosekWrapper.solve", okg and okf, "the primal solution is barx_0 and xx" if okg and okf else "optimal_G from barx_0: %s, optimal_F from xx: %s" % (okg, okf), loc(sv, sv))
+    # the value reported is the value of the objective *variable* in the solution, not the objective value of the problem last solved (after a
+    # heuristic that problem minimises <W, G>) -- the sibling of the cvxpy clause above
+    rets = [r for r in ast.walk(sv) if isinstance(r, ast.Return) and isinstance(r.value, ast.Tuple) and r.value.elts]
+    if len(rets) == 1:
+        v = rets[0].value.elts[-1]
+        seen = set()
+        while isinstance(v, ast.Name) and v.id not in seen:
+            seen.add(v.id)
+            d0 = [s0 for s0 in flow.stmts_of(sv, ast.Assign) if any(isinstance(t0, ast.Name) and t0.id == v.id for t0 in s0.targets)]
+            if len(d0) != 1:
+                break
+            v = d0[0].value
+        from_solution = any(isinstance(n0, ast.Call) and call_name(n0) == "getxx" for n0 in ast.walk(v)) or \
+            (isinstance(v, ast.Subscript) and isinstance(v.value, ast.Name) and isinstance(vals.get(v.value.id), ast.Call) and call_name(vals[v.value.id]) == "getxx")
+        objective_of_problem = [call_name(n0) for n0 in ast.walk(v) if isinstance(n0, ast.Call) and call_name(n0) in ("getprimalobj", "getdualobj")]
+        okv = from_solution and not objective_of_problem
+        ctx.ob("R-SOLVEVALS", "MosekWrapper.solve::value of the original objective", okv,
+               "solve reports the value of the objective variable read from the solution" if okv else
+               "solve reports `%s`: %s" % (src(v)[:60], "the objective value of the problem last solved -- after a dimension-reduction heuristic that is <W, G>, not the "
+                                           "worst-case value" if objective_of_problem else "not read from the solution vector"), loc(sv, rets[0]))
 
 
 def r_trilorder(ctx):
